@@ -240,16 +240,39 @@ Definition cross_failing (cs : list (nat * (graph * Z))) : list nat :=
 
 (* a positioner (phase 4) on a synthetic proper layering: algorithm code 1 SinkColoring, 2 VAlign, 3 PackRight,
    4 NetworkSimplex, 5 Brandes-Koepf (with its layout parameter); default thoroughness 28 and weight factor 4 *)
+Definition pos_model (alg : nat) (bk : Z) (p : p4params) (before : graph) : res graph :=
+  match alg with
+  | 1%nat => phase4 SinkColoring p before
+  | 2%nat => phase4 VAlign p before
+  | 3%nat => phase4 PackRight p before
+  | 4%nat => phase4 NsPositioner p before
+  | _ => phase4_bk bk p before
+  end.
+
 Definition pos_check (alg : nat) (bk : Z) (ns ls : Q) (before after : graph) : list nat :=
-  let p := mkP4 ns ls 28 4 in
-  cmp_res 6 (match alg with
-             | 1%nat => phase4 SinkColoring p before
-             | 2%nat => phase4 VAlign p before
-             | 3%nat => phase4 PackRight p before
-             | 4%nat => phase4 NsPositioner p before
-             | _ => phase4_bk bk p before
-             end) after.
+  cmp_res 6 (pos_model alg bk (mkP4 ns ls 28 4) before) after.
 
 Definition pos_failing (cs : list (nat * (nat * Z * Q * Q * graph * graph))) : list nat :=
   flat_map (fun c => let '(i, (alg, bk, ns, ls, b, a)) := c in
                      match pos_check alg bk ns ls b a with [] => [] | _ => [i] end) cs.
+
+(* a positioner followed by a router (route code 1 Straight, 2 Polyline, 3 Ortho) on a synthetic proper layering *)
+Definition route_check (alg : nat) (bk : Z) (route : nat) (ns ls : Q) (before after : graph) : list nat :=
+  cmp_res 7 (do g <- pos_model alg bk (mkP4 ns ls 28 4) before;
+             phase5 (match route with 1%nat => Straight | 2%nat => Polyline | _ => Ortho end) ls g) after.
+
+Definition route_failing (cs : list (nat * (nat * Z * nat * Q * Q * graph * graph))) : list nat :=
+  flat_map (fun c => let '(i, (alg, bk, route, ns, ls, b, a)) := c in
+                     match route_check alg bk route ns ls b a with [] => [] | _ => [i] end) cs.
+
+(* the ordering phase on a synthetic layering: order of every band, every position, and the reported crossing number *)
+Definition order_check (before after : graph) (reported : list Z) : list nat :=
+  match phase3_wmedian 24 before with
+  | Ok (g, ox) => cmp_graph 15 g after
+                  ++ (if list_eqb Z.eqb (match ox with Some x => [x] | None => [] end) reported then [] else [1500%nat])
+  | Err (ErrFuel k) => [1598%nat; (4000 + k)%nat]
+  | Err _ => [1599%nat]
+  end.
+
+Definition order_failing (cs : list (nat * (graph * graph * list Z))) : list nat :=
+  flat_map (fun c => let '(i, (b, a, r)) := c in match order_check b a r with [] => [] | _ => [i] end) cs.
